@@ -74,8 +74,23 @@ def build_router(cfg: Dict[str, Any]):
             handler.__name__ = m["name"]
             handler.__annotations__ = {"return": pt.Expr}
             return pt.ABIReturnSubroutine(handler)
-        mc = pt.MethodConfig(**{k: cc[v] for k, v in m["config"].items()})
-        r.add_method_handler(mk(), method_config=mc)
+        if m.get("via") == "decorator-default":
+            def handler_fn0(i=i):
+                return pt.Log(pt.Bytes("M_%d" % i))
+            handler_fn0.__name__ = m["name"]
+            handler_fn0.__annotations__ = {"return": pt.Expr}
+            r.method(handler_fn0)
+        elif m.get("via") == "decorator":
+            # @router.method(<only the keywords that are not NEVER>): unspecified OnCompletions mean NEVER
+            # (and no keyword at all means no_op=CALL)
+            def handler_fn(i=i):
+                return pt.Log(pt.Bytes("M_%d" % i))
+            handler_fn.__name__ = m["name"]
+            handler_fn.__annotations__ = {"return": pt.Expr}
+            r.method(**{k: cc[v] for k, v in m["config"].items() if v != NEVER})(handler_fn)
+        else:
+            mc = pt.MethodConfig(**{k: cc[v] for k, v in m["config"].items()})
+            r.add_method_handler(mk(), method_config=mc)
     return r
 
 
